@@ -39,13 +39,15 @@ var consensusRoles = []spectypes.BeaconRole{spectypes.BNRoleAttester, spectypes.
 var scenarios = []Scenario{
 	{Name: "happy", SameValue: true},
 	{Name: "happy-diffvalues"},
-	{Name: "rc2", DropProp: 2},                        // round-1 leader too slow: round change without prepared value, justified proposal in round 2
-	{Name: "rc3", DropProp: 3},                        // two lost leaders
+	{Name: "rc2", DropProp: 2},                         // round-1 leader too slow: round change without prepared value, justified proposal in round 2
+	{Name: "rc3", DropProp: 3},                         // two lost leaders
 	{Name: "prepared-rc", DropCom: 2, SameValue: true}, // everybody prepared in round 1, commits lost: prepared round changes, proposal with prepare justifications
 	{Name: "prepared-rc-diff", DropCom: 2},
 	{Name: "shuffled", Shuffle: true},
 	{Name: "one-down", Silent: []spectypes.OperatorID{2}},
 	{Name: "max-rounds", DropProp: 1000, MaxRounds: 0}, // no proposal ever arrives: rounds up to the role maximum
+	{Name: "overtake", Overtake: 1, SameValue: true},   // per-receiver gossip order: decided aggregates overtake single commits (directed rankings)
+	{Name: "overtake-random", Overtake: 2},             // … with sender rankings drawn from the seed
 }
 
 func partialSSV(w *World, role spectypes.BeaconRole, m *spectypes.SignedPartialSignatureMessage, slot uint64) *spectypes.SSVMessage {
@@ -354,7 +356,9 @@ var Mutations = []Mut{
 	amut("validator-liquidated", func(c *mctx) *Mutated { return &Mutated{Msg: c.withID(vLiquid, c.role), At: c.at, Env: Env{Mode: "n"}} }),
 	amut("validator-no-metadata", func(c *mctx) *Mutated { return &Mutated{Msg: c.withID(vNoMeta, c.role), At: c.at, Env: Env{Mode: "n"}} }),
 	amut("validator-exited", func(c *mctx) *Mutated { return &Mutated{Msg: c.withID(vExited, c.role), At: c.at, Env: Env{Mode: "n"}} }),
-	amut("validator-pending", func(c *mctx) *Mutated { return &Mutated{Msg: c.withID(vPending, c.role), At: c.at, Env: Env{Mode: "n"}} }),
+	amut("validator-pending", func(c *mctx) *Mutated {
+		return &Mutated{Msg: c.withID(vPending, c.role), At: c.at, Env: Env{Mode: "n"}}
+	}),
 	amut("validator-unknown", func(c *mctx) *Mutated {
 		m := c.withID(vMain, c.role)
 		m.MsgID = spectypes.NewMsgID(c.w.NetCfg.Domain, tu.Testing13SharesSet().Shares[13].GetPublicKey().Serialize(), c.role)
@@ -422,7 +426,10 @@ var Mutations = []Mut{
 	amut("envelope-bad-signature", func(c *mctx) *Mutated { return &Mutated{Msg: c.msg, At: c.at, Env: Env{Mode: "i", Op: 1}} }),
 	// ---- partial signature messages
 	pmut("partial-type-6", func(c *mctx, m *spectypes.SignedPartialSignatureMessage) bool { m.Message.Type = 6; return true }),
-	pmut("partial-type-maxu64", func(c *mctx, m *spectypes.SignedPartialSignatureMessage) bool { m.Message.Type = 1<<64 - 1; return true }),
+	pmut("partial-type-maxu64", func(c *mctx, m *spectypes.SignedPartialSignatureMessage) bool {
+		m.Message.Type = 1<<64 - 1
+		return true
+	}),
 	pmut("partial-type-role-mismatch", func(c *mctx, m *spectypes.SignedPartialSignatureMessage) bool {
 		if m.Message.Type == spectypes.VoluntaryExitPartialSig {
 			m.Message.Type = spectypes.RandaoPartialSig
@@ -462,7 +469,10 @@ var Mutations = []Mut{
 	pmut("partial-slot+1", func(c *mctx, m *spectypes.SignedPartialSignatureMessage) bool { m.Message.Slot++; return true }),
 	pmut("partial-slot+1000000", func(c *mctx, m *spectypes.SignedPartialSignatureMessage) bool { m.Message.Slot += 1000000; return true }),
 	pmut("partial-slot+2^62", func(c *mctx, m *spectypes.SignedPartialSignatureMessage) bool { m.Message.Slot += 1 << 62; return true }),
-	pmut("partial-slot-maxu64", func(c *mctx, m *spectypes.SignedPartialSignatureMessage) bool { m.Message.Slot = 1<<64 - 1; return true }),
+	pmut("partial-slot-maxu64", func(c *mctx, m *spectypes.SignedPartialSignatureMessage) bool {
+		m.Message.Slot = 1<<64 - 1
+		return true
+	}),
 	pmut("partial-slot-expired", func(c *mctx, m *spectypes.SignedPartialSignatureMessage) bool {
 		m.Message.Slot -= phase0.Slot(ttlSlots(c.role) + 40)
 		return true
